@@ -3,7 +3,7 @@ from ..core import AnalysisError, term_s, subterms
 from . import conn
 from .c06 import fifo
 from .conn import leaves, ret_kind, self_field
-from .util import const_of, is_call, last_seg, look, norm, truth, option_is_some
+from .util import payload_of, result_outcome, const_of, is_call, last_seg, look, norm, truth, option_is_some
 
 EXPLANATION = (
     "Static decision of what Rust's ownership does not already give: there is exactly one "
@@ -35,7 +35,7 @@ def run(ctx):
     ctx.guarded("R12.2", "append", lambda: append(ctx))
     ctx.guarded("R12.3", "move", lambda: move(ctx))
     ctx.guarded("R12.4", "apis", lambda: apis(ctx))
-    ctx.guarded("R12.5", "mutators", lambda: fifo(ctx, "R12.5", "files", {"extend", "drain", "clear", "append", "extend_from_slice"}))
+    ctx.guarded("R12.5", "mutators", lambda: fifo(ctx, "R12.5", "files", {"extend", "drain", "clear", "append", "extend_from_slice", "take"}))
 
 
 def wrap(ctx):
@@ -83,6 +83,14 @@ def wrap(ctx):
             x = look(x[2][0])
             while x[0] == "mut":
                 x = look(x[1])
+        if chain and chain[0] in ("new", "with_capacity"):
+            # the same thing written as a loop: for fd in fds.iter().take(fd_count) { files.push(File::from_raw_fd(*fd)) }
+            ok_loop, why = loop_form(ctx, fn, lv, files, R, fds)
+            ctx.ob("R12.1", "chain", ok_loop, "files is filled by pushing File::from_raw_fd(*fd) for fd in fds.iter().take(fd_count), in order, and changed by nothing else (%s)" % why, fn.loc(lf.bb))
+            cntb = look(tup[1][0])
+            ok_b = cntb[0] == "field" and cntb[3] == "0" and payload_of(cntb[1]) is not None and norm(payload_of(cntb[1])) == norm(R)
+            ctx.ob("R12.1", "byte-count", ok_b, "the byte count returned is the receive call's", fn.loc(lf.bb))
+            continue
         # collect(map(take(iter(&fds), fd_count), closure))
         ok_chain = chain == ["collect", "map", "take", "iter"] and x[0] == "repeat"
         ctx.ob("R12.1", "chain", ok_chain, "files = fds.iter().take(fd_count).map(from_raw_fd).collect() (chain %s)" % chain, fn.loc(lf.bb))
@@ -90,7 +98,7 @@ def wrap(ctx):
             mp = look(files[2][0])
             tk = look(mp[2][0])
             cnt = look(tk[2][1])
-            ok_cnt = cnt[0] == "field" and cnt[3] == "1" and cnt[1][0] == "payload" and any(norm(s) == norm(R) for s in subterms(cnt[1]) if isinstance(s, tuple))
+            ok_cnt = cnt[0] == "field" and cnt[3] == "1" and payload_of(cnt[1]) is not None and norm(payload_of(cnt[1])) == norm(R)
             ctx.ob("R12.1", "count-is-fd_count", ok_cnt, "take(n) uses the descriptor count the receive call returned", fn.loc(lf.bb))
             clo = look(mp[2][1])
             ok_clo = clo[0] == "closure"
@@ -101,9 +109,61 @@ def wrap(ctx):
                     ok_clo = is_call(r, "from_raw_fd") and look(r[2][0]) in (("deref", ("arg", 2)), ("arg", 2)) and len([e for e in l2.events if e[0] == "call"]) == 1
             ctx.ob("R12.1", "closure-wraps-each-once", ok_clo, "the mapped closure is exactly File::from_raw_fd(*fd)", fn.loc(lf.bb))
         cntb = look(tup[1][0])
-        ok_b = cntb[0] == "field" and cntb[3] == "0" and cntb[1][0] == "payload" and any(norm(s) == norm(R) for s in subterms(cntb[1]) if isinstance(s, tuple))
+        ok_b = cntb[0] == "field" and cntb[3] == "0" and payload_of(cntb[1]) is not None and norm(payload_of(cntb[1])) == norm(R)
         ctx.ob("R12.1", "byte-count", ok_b, "the byte count returned is the receive call's", fn.loc(lf.bb))
     ctx.ob("R12.1", "floor", n == 1, "%d success path(s) of the receive wrapper" % n)
+
+
+def _strip_mut(t):
+    t = look(t)
+    while t[0] == "mut":
+        t = look(t[1])
+    return t
+
+
+def loop_form(ctx, fn, lv, files, R, fds):
+    base = norm(_strip_mut(files))
+    n = 0
+    why = "no loop found"
+    ok = False
+    for l in lv:
+        if l.kind != "loop":
+            continue
+        frs = [e for e in l.events if e[0] == "call" and last_seg(e[3]) == "from_raw_fd"]
+        if not frs:
+            continue
+        n += 1
+        pushes = [e for e in l.events if e[0] == "call" and last_seg(e[3]) == "push" and "Vec" in e[3]]
+        if len(frs) != 1 or len(pushes) != 1:
+            return False, "%d from_raw_fd / %d push per iteration" % (len(frs), len(pushes))
+        if norm(_strip_mut(pushes[0][4][2][0])) != base or norm(look(pushes[0][4][2][1])) != norm(frs[0][4]):
+            return False, "the wrapped descriptor is not what is pushed onto the returned vector"
+        src = payload_of(frs[0][4][2][0])
+        if src is None or not is_call(src, "next"):
+            return False, "from_raw_fd is not applied to the loop's item"
+        it = _strip_mut(src[2][0])
+        if is_call(it, "into_iter"):
+            it = _strip_mut(it[2][0])
+        if not (is_call(it, "take") and is_call(look(it[2][0]), "iter")):
+            return False, "the loop is not over fds.iter().take(n)"
+        arr = _strip_mut(look(it[2][0])[2][0])
+        cnt = look(it[2][1])
+        if norm(arr) != norm(fds):
+            return False, "the loop is not over the descriptor array of the receive call"
+        if not (cnt[0] == "field" and cnt[3] == "1" and payload_of(cnt[1]) is not None and norm(payload_of(cnt[1])) == norm(R)):
+            return False, "take(n) does not use the descriptor count the receive call returned"
+        ok = True
+        why = "loop form"
+    if n != 1:
+        return False, "%d loops wrap descriptors" % n
+    # nothing else changes the vector (order!)
+    for l in lv:
+        for e in l.events:
+            if e[0] == "call" and last_seg(e[3]) != "push":
+                for a in e[4][2]:
+                    if a[0] == "ref" and a[2] and norm(_strip_mut(a[1])) == base:
+                        return False, "the vector is also changed by %s" % last_seg(e[3])
+    return ok, why
 
 
 def append(ctx):
@@ -113,7 +173,7 @@ def append(ctx):
         rc = [e for e in lf.events if e[0] == "call" and e[3] == conn.RECV]
         if not rc:
             continue
-        received = any(t[0] == "discr" and is_call(t[1], "branch") and norm(look(t[1][2][0])) == norm(rc[0][4]) and c == ("eq", 0) for (t, c, _b) in lf.conds)
+        received = result_outcome(lf, rc[0][4]) == "ok"
         ext = [e for e in lf.events if e[0] == "call" and last_seg(e[3]) in ("extend", "append", "push") and self_field(e[4][2][0], "files")]
         rk = ret_kind(lf)
         if received:
@@ -121,7 +181,9 @@ def append(ctx):
             ok = len(ext) == 1
             if ok:
                 a = look(ext[0][4][2][1])
-                ok = a[0] == "field" and a[3] == "1" and a[1][0] == "payload" and norm(look(a[1][1])) == norm(rc[0][4])
+                while a[0] == "mut":
+                    a = look(a[1])
+                ok = a[0] == "field" and a[3] == "1" and payload_of(a[1]) is not None and norm(payload_of(a[1])) == norm(rc[0][4])
             closed = rk is not None and rk[0] == "Err" and look(rk[1])[0] == "agg" and look(rk[1])[2] == "ConnectionClosed"
             ctx.ob("R12.2", "appended|%s" % ("eof-path" if closed else "data-path"), ok, "the files just received are appended to self.files%s" % (" before ConnectionClosed is returned" if closed else ""), fn.loc(lf.bb))
         else:
@@ -146,7 +208,7 @@ def move(ctx):
                     v = look(fa[-1][4])
                     x = v
                     while x[0] == "call" and x[2]:
-                        chain.append(last_seg(x[1]))
+                        chain.append("mem::take" if x[1] == "std::mem::take" else last_seg(x[1]))
                         x = look(x[2][0])
                         while x[0] == "mut":
                             x = look(x[1])
@@ -156,7 +218,7 @@ def move(ctx):
                         d = look(v[2][0])
                         r = look(d[2][1])
                         whole = r[0] == "agg" and "RangeFull" in r[1]
-                    elif chain in (["take"], ["replace"]):
+                    elif chain == ["mem::take"]:
                         whole = True
                     ok = src_ok and whole and not [c for c in chain if c in REORDER]
                 ctx.ob("R12.3", "whole-list-moved-before-queue", ok, "before a completed request is queued, request.files = self.files.drain(..).collect() (chain %s)" % chain, fn.loc(e[1]))
